@@ -626,6 +626,44 @@ def check_tables(sol):
             problems.append("to_csv(file name) did not write the file")
         elif isinstance(csv, str) and open(cfn).read() != csv:
             problems.append("to_csv(file name) wrote a different text than to_csv() returns")
+        # every separator, as text and as a file, re-read with the standard csv module (independent of pandas):
+        # each row reproduces the reported values cell by cell
+        import csv as _csv
+        import io
+        import ast
+
+        for sep in (",", ";", "\t", "|"):
+            texts = {}
+            t = sol.to_csv(separator=sep)
+            if not isinstance(t, str):
+                problems.append(f"to_csv(separator={sep!r}) returned {t!r} instead of the csv text")
+            else:
+                texts["text"] = t
+            if os.path.exists(cfn):
+                os.unlink(cfn)
+            sol.to_csv(cfn, separator=sep)
+            if not os.path.exists(cfn):
+                problems.append(f"to_csv(file name, separator={sep!r}) did not write the file")
+            else:
+                with open(cfn, newline="") as fh:
+                    texts["file"] = fh.read()
+            for kind, txt in texts.items():
+                rows = list(_csv.reader(io.StringIO(txt), delimiter=sep))
+                if not rows or rows[0][:6] != ["Task name", "Allocated Resources", "Start", "End", "Duration", "Scheduled"]:
+                    problems.append(f"csv ({kind}, separator {sep!r}): header {rows[:1]} is not the documented column list under that separator")
+                    continue
+                if len(rows) != len(sol.tasks) + 1:
+                    problems.append(f"csv ({kind}, separator {sep!r}): {len(rows) - 1} rows for {len(sol.tasks)} tasks")
+                    continue
+                for r, (n, ts) in zip(rows[1:], sol.tasks.items()):
+                    try:
+                        got = (r[0], list(ast.literal_eval(r[1])), int(r[2]), int(r[3]), int(r[4]), r[5])
+                    except Exception as e:
+                        problems.append(f"csv ({kind}, separator {sep!r}): row {r} cannot be read back ({type(e).__name__})")
+                        continue
+                    want = (n, list(ts.assigned_resources), ts.start, ts.end, ts.duration, str(bool(ts.scheduled)))
+                    if got != want:
+                        problems.append(f"csv ({kind}, separator {sep!r}): row {got} != reported {want}")
     finally:
         if os.path.exists(cfn):
             os.unlink(cfn)
